@@ -2,6 +2,8 @@
    changed textual fact breaks the obligations of the properties that own it and not those of every module that imports their lemmas. -/
 import CosetProofs.Ties.IanaMacro
 import CosetProofs.Ties.Budget.Iana
+import CosetProofs.Ties.Compare.Common
+import CosetProofs.Ties.Compare.Iana
 namespace Coset.Props.C17
 
 /-! ### ties to the source text (regenerated on every run, compared in the kernel with the transcribed tree) -/
@@ -14,5 +16,12 @@ theorem tie_iana_macro : Coset.Gen.ianaMacroHash = Coset.Pinned.ianaMacroHash :=
 theorem tie_budget_iana : Coset.Ties.budgetCovered "iana" Coset.Gen.decisionBudget Coset.Pinned.decisionBudget = true := Coset.Ties.budget_iana
 
 #print axioms tie_budget_iana
+
+/-! comparisons and integer literals of the modules this property is anchored in (properties.jsonl): none beyond the transcribed tree's -/
+theorem tie_compare_common : Coset.Ties.compareCovered "common" Coset.Gen.decisionBudget Coset.Pinned.decisionBudget = true := Coset.Ties.compare_common
+theorem tie_compare_iana : Coset.Ties.compareCovered "iana" Coset.Gen.decisionBudget Coset.Pinned.decisionBudget = true := Coset.Ties.compare_iana
+
+#print axioms tie_compare_common
+#print axioms tie_compare_iana
 
 end Coset.Props.C17
